@@ -1,10 +1,10 @@
 package engines
 
 import (
-	"errors"
 	"crypto/sha256"
 	"encoding/hex"
 	"encoding/json"
+	"errors"
 	"fmt"
 	"os"
 	"path"
@@ -34,11 +34,11 @@ const vroot = "/vbundle"
 // ---- in-memory document loader: the only way the library reaches auxiliary documents ----
 
 type memLoader struct {
-	files  map[string]string // absolute path -> text
-	loads  []string
-	failAt int // 1-based index of the load to fail (0 = none)
+	files   map[string]string // absolute path -> text
+	loads   []string
+	failAt  int  // 1-based index of the load to fail (0 = none)
 	garbage bool // the failing load delivers a truncated document instead of an I/O error
-	failed bool
+	failed  bool
 }
 
 var curLoader *memLoader
@@ -115,7 +115,7 @@ func worldOf(files map[string]string, root string) (*oracle.World, error) {
 }
 
 type optSet struct {
-	Name                                   string
+	Name                                     string
 	Minimal, Expand, RemoveUnused, KeepNames bool
 }
 
@@ -137,18 +137,18 @@ func parseOpt(o string) optSet {
 }
 
 type flatRun struct {
-	Opt      optSet
-	Err      error
-	Panic    *runner.PanicInfo
-	Stats    runner.CallStats
-	Doc      *spec.Swagger
-	Spec     *analysis.Spec
-	After    jx.Obj
-	Bytes    []byte
-	Loads    []string
-	Faulted  bool
-	Mutating []string // phases after which the document differed from the previous phase
-	Nodes    int
+	Opt       optSet
+	Err       error
+	Panic     *runner.PanicInfo
+	Stats     runner.CallStats
+	Doc       *spec.Swagger
+	Spec      *analysis.Spec
+	After     jx.Obj
+	Bytes     []byte
+	Loads     []string
+	Faulted   bool
+	Mutating  []string // phases after which the document differed from the previous phase
+	Nodes     int
 	Snapshots []phaseSnap // replay mode only: the document after each mutating phase
 }
 
